@@ -106,6 +106,19 @@ def run(p, report, tier):
     gen_ok = any(isinstance(n, ast.GeneratorExp) and "delayed" in ast.unparse(n.elt) and not n.generators[0].ifs
                  and isinstance(n.generators[0].iter, ast.Name) for n in ast.walk(pw.node))
     report.add("R20.1", ent, "one delayed inner query per chunk, in chunk order", f"{pw.file}:{pw.node.lineno}", gen_ok)
+    # nothing but the NaN-filled allocation and the scatter through the mapping writes the utilities that are selected from
+    sb0 = [c for c in ast.walk(pw.node) if isinstance(c, ast.Call) and c01.callname(c) == "simple_batch" and c.args
+           and isinstance(c.args[0], ast.Name)]
+    if sb0:
+        uname = sb0[0].args[0].id
+        extra_st = [n for n in ast.walk(pw.node) if isinstance(n, ast.Assign) and any(
+            isinstance(t, ast.Subscript) and base_name(t) == uname for t in n.targets)]
+        mp_names = c01.mapping_roles(pw.node, set())
+        extra_st = [n for n in extra_st if not (index_names(n.targets[0]) & mp_names)]
+        report.add("R20.1", ent, "the wrapped strategy's utilities reach simple_batch unaltered", f"{pw.file}:{(extra_st[0] if extra_st else pw.node).lineno}",
+                   not extra_st, detail="only scattered through the mapping" if not extra_st else
+                   f"`{norm_stmt(extra_st[0], 60)}` rewrites utilities the wrapped strategy reported: utilities and selection "
+                   "differ from the unwrapped strategy")
     sb = [n for n in ast.walk(pw.node) if isinstance(n, ast.Return) and isinstance(n.value, ast.Call) and c01.callname(n.value) == "simple_batch"]
     ok_sb = False
     if sb:
@@ -155,6 +168,19 @@ def run(p, report, tier):
         report.add("R20.2", ent, "-inf for candidates outside the subset", f"{sw.file}:{sw.node.lineno}", False,
                    detail="no -inf store into the returned utilities")
     check_subsampling_translation(p, report, sw, ent, tree, "R20.2")
+    # every batch row of the inner utilities is copied: `new[:, idx] = inner[:, idx]`, never one row for all
+    for n in ast.walk(sw.node):
+        if isinstance(n, ast.Assign) and isinstance(n.targets[0], ast.Subscript) and isinstance(n.targets[0].slice, ast.Tuple) \
+                and isinstance(n.value, ast.Subscript) and isinstance(n.value.slice, ast.Tuple) \
+                and len(n.targets[0].slice.elts) == 2 and len(n.value.slice.elts) == 2:
+            def _full(x):
+                return isinstance(x, ast.Slice) and x.lower is None and x.upper is None and x.step is None
+            if _full(n.targets[0].slice.elts[0]):
+                okr = _full(n.value.slice.elts[0])
+                report.add("R20.2", ent, f"`{norm_stmt(n, 70)}` copies every batch row", f"{sw.file}:{n.lineno}", okr,
+                           detail="row-for-row" if okr else
+                           "one row of the inner utilities is broadcast to all batch rows: later rows show numbers at "
+                           "samples that were already selected")
     check_subset_population(p, report, "R20.2")
     # ---------------- R20.3
     sa = p.get_class("SingleAnnotatorWrapper")
@@ -203,6 +229,19 @@ def run(p, report, tier):
         if len(call.args) > pos:
             out.append(call.args[pos])
         return out
+    # the wrapped strategy is asked with index candidates whenever a mapping exists
+    sqn = inline_temporaries(sq.node)
+    mp_sq = c01.mapping_roles(sqn, set())
+    inner_q = [c for c in ast.walk(sqn) if isinstance(c, ast.Call) and isinstance(c.func, ast.Attribute) and c.func.attr == "query"
+               and "strategy" in ast.unparse(c.func.value)]
+    if not inner_q or not mp_sq:
+        raise AnalysisError("SingleAnnotatorWrapper.query: inner query / mapping vanished")
+    ck = kwmap(inner_q[0]).get("candidates")
+    okc = ck is not None and bool(names_in(ck) & mp_sq)
+    report.add("R20.3", sq.qual, "inner strategy is queried with the index candidates when a mapping exists",
+               f"{sq.file}:{inner_q[0].lineno}", okc, detail=f"candidates={ast.unparse(ck) if ck is not None else None}" if okc else
+               "the wrapped strategy always receives the candidate SAMPLES: strategies that treat index candidates "
+               "differently rank other samples than they would unwrapped")
     rf = RawFlow(sq.node, "A_perf", sink).run()
     if rf.sinks == 0:
         raise AnalysisError("SingleAnnotatorWrapper.query: call of _query_annotators vanished")
